@@ -16,7 +16,7 @@ import (
 )
 
 type opIn struct {
-	K     string `json:"k"` // add | next | reset
+	K     string `json:"k"` // add | next | reset | recycle
 	V4    bool   `json:"v4,omitempty"`
 	Hash  string `json:"hash,omitempty"` // hex
 	Type  uint8  `json:"type,omitempty"`
@@ -109,6 +109,7 @@ func rep(o opIn, n int) []opIn {
 
 var next = opIn{K: "next"}
 var reset = opIn{K: "reset"}
+var recycle = opIn{K: "recycle"}
 
 func cat(xs ...[]opIn) []opIn {
 	var out []opIn
@@ -127,6 +128,10 @@ func fixedCases() []input {
 	return []input{
 		// size of an IPv4 item followed by an IPv6 item (tag 1 lands on the top size byte when records are 1 short)
 		{Init: 64, Limit: 1000, Ops: []opIn{a4, a6, next, next, next}},
+		// two buffering cycles on the same pool element: fill to the limit (64 -> 128), recycle (the element
+		// keeps capacity 128, length back to 64), refill past the initial size: must grow again, not refuse
+		{Init: 64, Limit: 128, Ops: []opIn{a6, a6, a4, a4, next, recycle, a6, a6, a4, next, next, next, next}},
+		{Init: 45, Limit: 180, Ops: cat(rep(a6, 4), []opIn{recycle}, rep(a4, 7), []opIn{a6, recycle, a6, a6}, rep(next, 3))},
 		// size >= 2^24 followed by an IPv4 item (tag 0)
 		{Init: 64, Limit: 1000, Ops: []opIn{big4, a4, next, next}},
 		{Init: 100, Limit: 1 << 26, Ops: []opIn{max6, max6, a6, a4, next, next, next, next, next}},
@@ -201,6 +206,7 @@ func gen(r *vhlib.Rand, i int, o vhlib.Opts) any {
 	malformed := r.Chance(5)
 	p4 := vhlib.Pick(r, []int{0, 30, 50, 70, 100})
 	style := r.Intn(4)
+	recP := vhlib.Pick(r, []int{0, 0, 8, 15}) // recycling of the pool element between buffering cycles
 	pending := 0
 	for k := 0; k < nOps; k++ {
 		var addP int
@@ -223,6 +229,9 @@ func gen(r *vhlib.Rand, i int, o vhlib.Opts) any {
 		switch {
 		case r.Chance(3):
 			in.Ops = append(in.Ops, reset)
+			pending = 0
+		case r.Chance(recP):
+			in.Ops = append(in.Ops, recycle)
 			pending = 0
 		case r.Chance(addP):
 			in.Ops = append(in.Ops, genAdd(r, r.Chance(p4), malformed && r.Chance(40)))
@@ -301,8 +310,8 @@ func run(raw json.RawMessage, o vhlib.Opts) (*vhlib.Case, error) {
 				// a hash slice shorter than the version's hash size makes Add under-estimate the room it
 				// needs; execute it only when the record certainly fits without growing (otherwise Go may
 				// write through unsafe past the slice, which neither panics nor is defined) - else call Next
-				d, w, _ := buf.VerifC23Dump()
-				if w+recMax+8 >= len(d) {
+				_, ln, w, _ := buf.VerifC23DumpCap()
+				if w+recMax+8 >= ln {
 					op = next
 				}
 			}
@@ -375,6 +384,16 @@ func run(raw json.RawMessage, o vhlib.Opts) (*vhlib.Case, error) {
 				coqObs = append(coqObs, coqItem("G", v4, h, typ, size, aux, int8(errno)))
 				observed = append(observed, obsOut{Op: "next", V4: v4, Hash: hex.EncodeToString(h), Type: typ, Size: size, Aux: aux, Errno: int8(errno)})
 			}
+		case "recycle":
+			buf.VerifC23Recycle(in.Init)
+			prevAcc = false
+			coqOps = append(coqOps, "Rc")
+			coqObs = append(coqObs, "Z1")
+			observed = append(observed, obsOut{Op: "recycle"})
+			tags["recycle"] = true
+			if _, ln, _, _ := buf.VerifC23DumpCap(); ln < cap0(buf) {
+				tags["recycle-with-spare-capacity"] = true
+			}
 		case "reset":
 			buf.Reset()
 			prevAcc = false
@@ -395,13 +414,14 @@ func run(raw json.RawMessage, o vhlib.Opts) (*vhlib.Case, error) {
 	if panicked {
 		tags["panic"] = true
 	} else {
-		d, w, rd := buf.VerifC23Dump()
+		d, ln, w, rd := buf.VerifC23DumpCap()
 		trimmed := d
 		for len(trimmed) > 0 && trimmed[len(trimmed)-1] == 0 {
 			trimmed = trimmed[:len(trimmed)-1]
 		}
-		final = fmt.Sprintf("(Some (\"%s\"%%string, %d%%N, %d%%N, %d%%N))", hex.EncodeToString(trimmed), len(d), w, rd)
+		final = fmt.Sprintf("(Some (\"%s\"%%string, %d%%N, %d%%N, %d%%N, %d%%N))", hex.EncodeToString(trimmed), len(d), ln, w, rd)
 		obsMap["data"] = hex.EncodeToString(d)
+		obsMap["len"] = ln
 		obsMap["write_pos"] = w
 		obsMap["read_pos"] = rd
 		if len(d) > startLen {
@@ -431,6 +451,11 @@ func run(raw json.RawMessage, o vhlib.Opts) (*vhlib.Case, error) {
 	c.Nontrivial = wf && accepted > 0 && got > 0
 	c.Coq = fmt.Sprintf("mk_case %d %d %s %s %s", in.Init, in.Limit, vhlib.CoqList(coqOps), vhlib.CoqList(coqObs), final)
 	return c, nil
+}
+
+func cap0(b *capture.LocalBuffer) int {
+	m, _, _, _ := b.VerifC23DumpCap()
+	return len(m)
 }
 
 func main() { vhlib.Main(gen, run) }
